@@ -293,7 +293,12 @@ def run_check(pid, tier, seed):
     else:
         ctx = mp.get_context("fork")
         with ctx.Pool(nworkers) as pool:
-            res = pool.map(_worker, args, chunksize=1)
+            try:
+                res = pool.map_async(_worker, args, chunksize=1).get(timeout=budget * 2 + 900)
+            except mp.TimeoutError:
+                pool.terminate()
+                sys.stderr.write("HARNESS-ERROR: workers did not finish within the watchdog time (inconclusive, not a verdict)\n")
+                return 2
     errs = [r[1] for r in res if r[0] != "ok"]
     if errs:
         sys.stderr.write("HARNESS-ERROR: worker failed\n" + errs[0] + "\n")
